@@ -1827,7 +1827,10 @@ class GeoPoint(SingleShapeBase, PointLikeMixin, SimpleShapeMixin):
 
     def _to_shapely(self):
         import shapely
-        return shapely.Point(self.centroid.longitude, self.centroid.latitude)
+        coord = self.centroid
+        if coord.z is not None:
+            return shapely.Point(coord.longitude, coord.latitude, coord.z)
+        return shapely.Point(coord.longitude, coord.latitude)
 
     def to_wkt(self, **_) -> str:
         return f'POINT({" ".join(self.coordinate.to_str())})'
